@@ -427,6 +427,16 @@ pub fn c02(c: &mut Ctx) {
             _ => f64_in(&mut c.rng, -480, 480),
         };
         let inr = |x: f64| x.abs() >= pow2(-480) && x.abs() <= pow2(480);
+        if inr(p) && inr(q) && c.rng.chance(1, 4) {
+            // the same divisor several times in a row (state carried from one call to the next must not matter)
+            for _ in 0..3 {
+                let p3 = f64_in(&mut c.rng, -480, 480);
+                if inr(p3) {
+                    c02_div(c, p3, q);
+                }
+            }
+            c.count("repeated_divisor_sequences");
+        }
         if inr(p) && inr(q) {
             let ratio = c02_div(c, p, q);
             if ratio.is_finite() {
@@ -704,6 +714,14 @@ pub fn c03(c: &mut Ctx) {
             }
         }
         let a = zero_or(&mut c.rng, a);
+        if i % 8 == 5 {
+            // consecutive calls sharing one operand (sequence / state dependence)
+            for _ in 0..2 {
+                let a2 = tf_in(&mut c.rng, -1000, 999);
+                c03_tt(c, a2, b);
+                c03_tt(c, b, a2);
+            }
+        }
         let r = c03_tt(c, a, b);
         cl_tt.offer(r, a, b);
         if i < 4096 {
@@ -956,6 +974,13 @@ pub fn c04(c: &mut Ctx) {
             }
         }
         let a = zero_or(&mut c.rng, a);
+        if i % 8 == 5 {
+            for _ in 0..2 {
+                let a2 = tf_in(&mut c.rng, -450, 449);
+                c04_tt(c, a2, b);
+                c04_tf(c, a2, b.0);
+            }
+        }
         let r = c04_tt(c, a, b);
         cl_tt.offer(r, a, b);
         if i < 4096 {
@@ -1244,6 +1269,14 @@ pub fn c05(c: &mut Ctx) {
             }));
             if let Ok(x) = res {
                 pool.offer(&mut c.rng, x);
+            }
+        }
+        if i % 8 == 5 {
+            for _ in 0..2 {
+                let a2 = tf_in(&mut c.rng, -450, 449);
+                c05_tt(c, a2, b);
+                c05_tf(c, a2, b.0);
+                c05_ft(c, a2.0, b);
             }
         }
         let r = c05_tt(c, a, b);
